@@ -1,6 +1,17 @@
 // ===== prelude/env.rs — stand-ins U-ENV needs: Context (opaque here, verified in U-CTX), mailbox receiver, payloads =====
 #[verifier::external_body] #[verifier::accept_recursive_types(A)]
 pub struct Context<A> { p: core::marker::PhantomData<A> }
+// ownership views of what the loop future captures (Context's view is derived from its real fields and proved weak in unit ctx)
+impl<A> Context<A> { pub uninterp spec fn chan(&self) -> int; }
+impl<A> OwnView for Context<A> { open spec fn own(&self) -> Own { Own { none: false, chan: self.chan(), s_tx: false, s_force: false, w_tx: true, w_force: true, mixed: false } } }
+impl<A> OwnView for PayloadStream<A> { open spec fn own(&self) -> Own { own_none() } }
+impl<T> OwnView for OsSender<T> { open spec fn own(&self) -> Own { own_none() } }
+// an address of the actor itself (only to give a view to a loop future that wrongly captures one)
+#[verifier::external_body] #[verifier::accept_recursive_types(A)] pub struct Addr<A> { p: core::marker::PhantomData<A> }
+impl<A> Addr<A> { pub uninterp spec fn chan(&self) -> int; }
+impl<A> OwnView for Addr<A> { open spec fn own(&self) -> Own { Own { none: false, chan: self.chan(), s_tx: true, s_force: true, w_tx: false, w_force: false, mixed: false } } }
+pub broadcast axiom fn own_of_actor<A: Actor>(a: &A) ensures #[trigger] own_of(a) == own_none();      // client contract: the actor value does not store a strong handle to itself
+pub broadcast axiom fn own_of_stream<S: VStream>(s: &S) ensures #[trigger] own_of(s) == own_none();   // client contract: the attached stream holds no strong handle to the actor
 pub open spec fn ctx_stable<A>(pre: &Context<A>, post: &Context<A>) -> bool { true }
 impl<A> Context<A> {
     // after the C07 repair: Context::abort_tasks (body verified in U-CTX: every registered timer task is aborted and the list is emptied)
